@@ -876,3 +876,11 @@ def _(eng, m, g, a):
     if isinstance(it, SymChars): return SymChars(list(reversed(it.chars[it.pos:])))
     raise Pass()
 MODELS.insert(0, MODELS.pop())
+
+@model(r"^<(?:&)?(?:\[.*\]|Vec<.*>|\(.*\)|Option<.*>) as (Ord|PartialOrd)>::(cmp|partial_cmp)$")
+def _(eng, m, g, a):
+    o = ordering(cmp_generic(eng, a[0], a[1]))
+    return o if m.group(2) == "cmp" else some(o)
+@model(r"^<(?:&)?(?:\[.*\]|Vec<.*>|\(.*\)) as PartialOrd>::(lt|le|gt|ge)$")
+def _(eng, m, g, a):
+    c = cmp_generic(eng, a[0], a[1]); return B({"lt": c < 0, "le": c <= 0, "gt": c > 0, "ge": c >= 0}[m.group(1)])
